@@ -274,7 +274,17 @@ async fn main(plan: Plan) -> Outcome {
         let name = KEYSPACES[which];
         let case_sensitive = name.chars().any(|c| c.is_ascii_uppercase());
         let start = world::now_ns();
-        let res = tokio::time::timeout(Duration::from_secs(120), session.use_keyspace(name, case_sensitive)).await;
+        // The keyspace is set through Session::use_keyspace or (1 in 3) by running a USE
+        // statement as an ordinary query: the driver notices the SetKeyspace result and
+        // switches the whole session before the call returns.
+        let via_query = tape::chance("c20:via_query", 1, 3);
+        let res: Result<Result<(), String>, _> = if via_query {
+            let text = if case_sensitive { format!("USE \"{name}\"") } else { format!("USE {name}") };
+            out.count("use_via_query", 1);
+            tokio::time::timeout(Duration::from_secs(120), async { session.query_unpaged(text, ()).await.map(|_| ()).map_err(|e| e.to_string()) }).await
+        } else {
+            tokio::time::timeout(Duration::from_secs(120), async { session.use_keyspace(name, case_sensitive).await.map_err(|e| e.to_string()) }).await
+        };
         let end = world::now_ns();
         match res {
             Ok(r) => calls.push(UseCall {
